@@ -51,6 +51,15 @@ def main():
         if rc != 0:
             # the tree moved on since the patch was written (fix: commits): retry with fuzz and store the refreshed diff
             rc, out = sh("patch -p1 --fuzz=3 --no-backup-if-mismatch < %s" % os.path.abspath(patch), cwd=wt)
+            if rc != 0 and os.environ.get("SEED_BASE"):
+                # still not: the patch was written against an earlier commit and overlaps a later fix. Apply it there and bring the later commits on top (3-way)
+                sh("git checkout -q -- . && git clean -fdq derive-ex", cwd=wt)
+                base = os.environ["SEED_BASE"]
+                rc, out = sh("git checkout -q --detach %s && git apply %s && git -c user.name=v -c user.email=v@v commit -qam seed && git -c user.name=v -c user.email=v@v cherry-pick %s..%s" % (
+                    base, os.path.abspath(patch), base, sh("git -C /repo rev-parse HEAD")[1].strip()), cwd=wt)
+                if rc == 0:
+                    sh("git reset -q --soft %s" % sh("git -C /repo rev-parse HEAD")[1].strip(), cwd=wt)
+                    meta["ported_from"] = base
             assert rc == 0, "patch does not apply: " + out
             sh("find . -name '*.orig' -delete", cwd=wt)
             rc2, refreshed = sh("git diff -- derive-ex", cwd=wt)
